@@ -36,6 +36,7 @@ const (
 type clientView struct {
 	typ       string
 	name      string
+	rev       uint64 // revision number of the client's head and of its ordinary consensus states
 	head      uint64
 	delay     uint64
 	heights   [numStates]uint64
@@ -51,7 +52,11 @@ func (c *clientView) height(hs heightSpec) clienttypes.Height {
 	if hs.abs {
 		return clienttypes.NewHeight(hs.rev, hs.absV)
 	}
-	return clienttypes.NewHeight(hs.rev, uint64(int64(c.heights[hs.st])+hs.delta))
+	rev := c.rev + hs.rev
+	if hs.lower && c.rev > 0 {
+		rev = c.rev - 1
+	}
+	return clienttypes.NewHeight(rev, uint64(int64(c.heights[hs.st])+hs.delta))
 }
 
 // fact is the three-valued ground truth of a claim.
@@ -70,7 +75,7 @@ func holds(w *world, c *clientView, cl claim) fact {
 	if !ok {
 		return fact{"false", "no-root-at-height", -1}
 	}
-	if h.RevisionHeight > c.head {
+	if h.RevisionNumber > c.rev || (h.RevisionNumber == c.rev && h.RevisionHeight > c.head) {
 		return fact{"false", "height-above-head", st}
 	}
 	if c.head-h.RevisionHeight < c.delay {
@@ -339,6 +344,9 @@ func newClient(rng *rand.Rand, typ, cid string) *clientView {
 		nv := pick(rng, []int{1, 2, 3, 4, 7, 11, 21})
 		c.delay = uint64(nv/2 + 1)
 	}
+	if rng.Intn(3) == 0 {
+		c.rev = uint64(1 + rng.Intn(3))
+	}
 	gap := uint64(3 + rng.Intn(50))
 	minHead := c.delay + gap + 5
 	switch rng.Intn(5) {
@@ -365,12 +373,18 @@ func newClient(rng *rand.Rand, typ, cid string) *clientView {
 	c.heights[stEmptyA] = c.heights[stOld] - 2
 	c.heights[stForged] = 0 // never installed
 	for _, st := range []int{stOld, stBoundary, stNotPassed, stAboveHead, stNoA, stEmptyA} {
-		h := clienttypes.NewHeight(0, c.heights[st])
+		h := clienttypes.NewHeight(c.rev, c.heights[st])
 		c.installed[h] = st
 		c.consField[h] = h
 		if rng.Intn(3) == 0 {
 			c.consField[h] = []clienttypes.Height{{}, clienttypes.NewHeight(0, c.heights[stOld]), clienttypes.NewHeight(0, c.head), clienttypes.NewHeight(0, c.head+7), clienttypes.NewHeight(1, c.heights[st])}[rng.Intn(5)]
 		}
+	}
+	if c.rev > 0 {
+		// states the client kept from the revision before: the SAME block numbers, other roots
+		lo, lb := clienttypes.NewHeight(c.rev-1, c.heights[stOld]), clienttypes.NewHeight(c.rev-1, c.heights[stBoundary])
+		c.installed[lo], c.installed[lb] = stBoundary, stOld
+		c.consField[lo], c.consField[lb] = lo, lb
 	}
 	return c
 }
@@ -379,7 +393,7 @@ func newClient(rng *rand.Rand, typ, cid string) *clientView {
 // real client store (no header verification is involved in this property).
 func install(ctx sdk.Context, n *core.Node, w *world, c *clientView) {
 	ck := n.App.XIBCKeeper.ClientKeeper
-	head := clienttypes.NewHeight(0, c.head)
+	head := clienttypes.NewHeight(c.rev, c.head)
 	if c.typ == "eth" {
 		ck.SetClientState(ctx, c.name, &ethtypes.ClientState{
 			Header:          ethtypes.Header{Height: head, Root: w.states[stBoundary].root[:]},
